@@ -15,6 +15,7 @@ pub fn run(ctx: &mut Ctx) {
         std_triple: true,
         canon: false,
         record_canon: false,
+        keep_ptrs: false,
     };
     // ---- regime exh3: exhaustive over all functions of <= 3 variables
     // case = order(6) x cache(2) x block(8 blocks of 32 functions)
